@@ -18,6 +18,10 @@ EM = io.EM
 TR = io.TR
 
 
+def _width_setter(m):
+    return m.func("droplets.droplets.DiffuseDroplet.interface_width@setter")
+
+
 def check(ctx: Ctx):
     ctx.explain("Writer/reader table agreement (IOAGREE) and dtype/constructor layout agreement (LAYOUT); see module docstring.")
     io.check_dataset_pair(ctx, f"{EM}.Emulsion._write_hdf_dataset", f"{EM}.Emulsion._from_hdf_dataset", "Emulsion")
@@ -49,9 +53,15 @@ def check(ctx: Ctx):
     tracking.check_track_append(ctx, rules=("PAIR",))
     ctx.expect("PAIR", 5)
     col.check_copy_total(ctx)
-    ctx.expect("NONETEST", 2)
+    ctx.expect("NONETEST", 3)
     ctx.expect("COPYALL", 2)
     io.check_exact_eq(ctx)
+    from ..rules import support
+
+    # the constructor's own list of times: a shared list lets times and members drift apart before writing (zip truncates)
+    support.compose(ctx, col.check_fresh_derivations, keep=("FRESH",), site_filter=lambda s: "EmulsionTimeCourse.__init__" in s)
+    support.check_field_types(ctx)
+    nonetest.check(ctx, _width_setter(m), "value", "the interface width")
     io.check_layouts(ctx)
     ctx.expect("IOAGREE", 52)
     ctx.expect("LAYOUT", 5)
